@@ -32,9 +32,10 @@ type MW struct {
 	Fees    map[string][]uint64 // fee set to draw rotations from
 	step    int
 	// NoAmbiguity: honest operations must succeed (fault-free sub-profile)
-	Strict    bool
-	NextPlans []*FaultPlan // fault plans for the next step's episode
-	Faulted   bool         // a storage error was injected: oracles that need exact knowledge relax
+	Strict       bool
+	forceAdvMode int
+	NextPlans    []*FaultPlan // fault plans for the next step's episode
+	Faulted      bool         // a storage error was injected: oracles that need exact knowledge relax
 	// Locks: honest swaps sometimes produce P2PK/HTLC locked proofs, spent later with a witness
 	Locks          bool
 	MPP            bool
@@ -1081,7 +1082,10 @@ func (m *MW) StepAdversarial() {
 		m.StepFund()
 		return
 	}
-	mode := m.T.Choose("adv.mode", 9)
+	mode := m.T.Choose("adv.mode", 10)
+	if m.forceAdvMode > 0 {
+		mode = m.forceAdvMode
+	}
 	m.rc.Op(fmt.Sprintf("adversarial%d", mode))
 	ks := m.W.ActiveKeyset(mint)
 	sum := SumH(ins)
@@ -1143,6 +1147,29 @@ func (m *MW) StepAdversarial() {
 					m.afterMelt(mint, lq, one, r2)
 					a.Mint(mint, q, m.W.NewOutputs(Split(64), ks.ID), "")
 				}
+			}
+			return
+		case 9: // a forged invoice that reuses the payment hash of this mint's own mint quote, for 1 sat:
+			// "settling internally" would mark the big quote paid for a melt of one sat
+			q, _ := a.ReqMintQuote(mint, 64, false)
+			if q == nil {
+				return
+			}
+			forged, err := m.W.LN.ForgeInvoiceWithHash(q.Hash, 1000)
+			if err != nil {
+				return
+			}
+			m.rc.S.Probe("adv_forged_invoice_same_hash")
+			lq, _ := a.ReqMeltQuote(mint, forged, 0)
+			if lq != nil {
+				one := m.User.Take(mint, lq.Amount+lq.Reserve+m.feeFor(mint, ins))
+				if one != nil {
+					r2 := a.Melt(mint, lq.ID, one)
+					m.afterMelt(mint, lq, one, r2)
+				}
+			}
+			if ps, mr := a.Mint(mint, q, m.W.NewOutputs(Split(64), ks.ID), ""); mr.OK() {
+				m.User.Purse[mint] = append(m.User.Purse[mint], ps...)
 			}
 			return
 		case 7: // the same output twice with different amounts
